@@ -205,8 +205,271 @@ fn parse_family<T: ColumnType>(case: &Value) -> Value {
     json!({"parse": p, "re_valid": re_valid_table(text)})
 }
 
+fn parse_json<T: ColumnType>(text: &str, name: &str) -> Value {
+    match parse_with_name::<T>(text, name.to_string()) {
+        Ok(rs) => json!(["ok", rs.iter().map(record_json).collect::<Vec<_>>()]),
+        Err(e) => json!(["err", parse_kind_code(&e.kind()), e.location().line()]),
+    }
+}
+
+/// format family: parse -> Display every record (one writeln! each, as --format/--override do)
+/// -> parse again -> format again
+fn format_family<T: ColumnType>(case: &Value) -> Value {
+    let text = case["text"].as_str().unwrap();
+    let mut out = serde_json::Map::new();
+    let mut tables = vec![re_valid_table(text)];
+    out.insert("parse".into(), parse_json::<T>(text, "t.slt"));
+    if let Ok(rs) = parse_with_name::<T>(text, "t.slt") {
+        let fmt1 = catch_unwind(AssertUnwindSafe(|| {
+            let mut s = String::new();
+            for r in &rs {
+                s.push_str(&r.to_string());
+                s.push('\n');
+            }
+            s
+        }));
+        match fmt1 {
+            Err(_) => {
+                out.insert("fmt".into(), json!(["panic"]));
+            }
+            Ok(f1) => {
+                out.insert("fmt".into(), json!(["ok", f1]));
+                tables.push(re_valid_table(&f1));
+                out.insert("reparse".into(), parse_json::<T>(&f1, "t.slt"));
+                if let Ok(rs2) = parse_with_name::<T>(&f1, "t.slt") {
+                    let mut s = String::new();
+                    for r in &rs2 {
+                        s.push_str(&r.to_string());
+                        s.push('\n');
+                    }
+                    out.insert("fmt2".into(), json!(["ok", s]));
+                }
+            }
+        }
+    }
+    let mut all = vec![];
+    for t in tables {
+        if let Value::Array(a) = t {
+            for e in a {
+                if !all.contains(&e) {
+                    all.push(e);
+                }
+            }
+        }
+    }
+    out.insert("re_valid".into(), Value::Array(all));
+    Value::Object(out)
+}
+
+// ------------------------------------------------------------------ file trees
+static TREE_COUNTER: std::sync::atomic::AtomicUsize = std::sync::atomic::AtomicUsize::new(0);
+
+pub struct Tree {
+    pub root: std::path::PathBuf,
+}
+
+impl Tree {
+    /// files: [[relpath, "file", content] | [relpath, "dir"] | [relpath, "binary"]]
+    pub fn create(files: &Value) -> Tree {
+        let n = TREE_COUNTER.fetch_add(1, std::sync::atomic::Ordering::SeqCst);
+        let base = std::env::var("SLT_HARNESS_TMP").unwrap_or_else(|_| "/verif/.cache/tmp".to_string());
+        let root = std::path::PathBuf::from(format!("{}/t{}_{}", base, std::process::id(), n));
+        let _ = std::fs::remove_dir_all(&root);
+        std::fs::create_dir_all(&root).unwrap();
+        for f in files.as_array().unwrap() {
+            let rel = f[0].as_str().unwrap();
+            let p = root.join(rel);
+            match f[1].as_str().unwrap() {
+                "dir" => std::fs::create_dir_all(&p).unwrap(),
+                "binary" => {
+                    std::fs::create_dir_all(p.parent().unwrap()).unwrap();
+                    std::fs::write(&p, [0xffu8, 0xfe, 0x00, 0x80]).unwrap();
+                }
+                _ => {
+                    std::fs::create_dir_all(p.parent().unwrap()).unwrap();
+                    std::fs::write(&p, f[2].as_str().unwrap()).unwrap();
+                }
+            }
+        }
+        Tree { root }
+    }
+    pub fn prefix(&self) -> String {
+        format!("{}/", self.root.to_string_lossy())
+    }
+    /// every file below the root: [relpath, content (lossy)]
+    pub fn listing(&self) -> Value {
+        let mut out = vec![];
+        fn walk(dir: &std::path::Path, root: &std::path::Path, out: &mut Vec<Value>) {
+            let mut ents: Vec<_> = std::fs::read_dir(dir).unwrap().map(|e| e.unwrap().path()).collect();
+            ents.sort();
+            for p in ents {
+                if p.is_dir() {
+                    walk(&p, root, out);
+                } else {
+                    let rel = p.strip_prefix(root).unwrap().to_string_lossy().to_string();
+                    let bytes = std::fs::read(&p).unwrap();
+                    out.push(json!([rel, String::from_utf8_lossy(&bytes)]));
+                }
+            }
+        }
+        walk(&self.root, &self.root, &mut out);
+        Value::Array(out)
+    }
+}
+
+impl Drop for Tree {
+    fn drop(&mut self) {
+        let _ = std::fs::remove_dir_all(&self.root);
+    }
+}
+
+/// replace the temp root prefix in every string of a JSON value
+fn strip_prefix_json(v: &Value, prefix: &str) -> Value {
+    match v {
+        Value::String(s) => Value::String(s.replace(prefix, "")),
+        Value::Array(a) => Value::Array(a.iter().map(|x| strip_prefix_json(x, prefix)).collect()),
+        Value::Object(o) => Value::Object(o.iter().map(|(k, x)| (k.clone(), strip_prefix_json(x, prefix))).collect()),
+        x => x.clone(),
+    }
+}
+
+fn parse_error_json(e: &ParseError) -> Value {
+    json!(["err", parse_kind_code(&e.kind()), loc_json(&e.location())])
+}
+
+/// the file-system and glob views the implementation gets while expanding `main`
+/// (computed with std::fs and the glob crate, breadth first over everything reachable)
+fn fs_glob_tables<T: ColumnType>(main_abs: &str) -> (Value, Value, Value) {
+    let mut fs_tbl = vec![];
+    let mut glob_tbl = vec![];
+    let mut re_tbl: Vec<Value> = vec![];
+    let mut queue = vec![main_abs.to_string()];
+    let mut seen: Vec<String> = vec![];
+    let mut seen_pat: Vec<String> = vec![];
+    while let Some(p) = queue.pop() {
+        if seen.contains(&p) {
+            continue;
+        }
+        seen.push(p.clone());
+        let path = std::path::Path::new(&p);
+        if !path.exists() {
+            fs_tbl.push(json!([p, "missing"]));
+            continue;
+        }
+        if path.is_dir() {
+            fs_tbl.push(json!([p, "dir"]));
+            continue;
+        }
+        let text = match std::fs::read_to_string(path) {
+            Ok(t) => t,
+            Err(_) => {
+                fs_tbl.push(json!([p, "binary"]));
+                continue;
+            }
+        };
+        fs_tbl.push(json!([p, "file", text]));
+        if let Value::Array(a) = re_valid_table(&text) {
+            for e in a {
+                if !re_tbl.contains(&e) {
+                    re_tbl.push(e);
+                }
+            }
+        }
+        if let Ok(rs) = parse_with_name::<T>(&text, p.clone()) {
+            for r in rs {
+                if let Record::Include { filename, .. } = r {
+                    let mut pb = path.to_path_buf();
+                    pb.pop();
+                    pb.push(filename.clone());
+                    let complete = pb.as_os_str().to_string_lossy().to_string();
+                    if seen_pat.contains(&complete) {
+                        continue;
+                    }
+                    seen_pat.push(complete.clone());
+                    match glob::glob(&complete) {
+                        Err(_) => glob_tbl.push(json!([complete, "bad", []])),
+                        Ok(it) => {
+                            let mut ms = vec![];
+                            let mut unreadable = false;
+                            for m in it {
+                                match m {
+                                    Ok(pb) => ms.push(pb.as_os_str().to_string_lossy().to_string()),
+                                    Err(_) => unreadable = true,
+                                }
+                            }
+                            for m in &ms {
+                                queue.push(m.clone());
+                            }
+                            glob_tbl.push(json!([complete, if unreadable { "unreadable" } else { "ok" }, ms]));
+                        }
+                    }
+                }
+            }
+        }
+    }
+    (Value::Array(fs_tbl), Value::Array(glob_tbl), Value::Array(re_tbl))
+}
+
+/// family "file": parse_file / run_file on a real directory tree
+fn file_family<T: ColumnType + 'static>(case: &Value) -> Value {
+    let tree = Tree::create(&case["files"]);
+    let main_abs = format!("{}{}", tree.prefix(), case["main"].as_str().unwrap());
+    let mode = case.get("mode").and_then(|s| s.as_str()).unwrap_or("parse");
+    let mut out = serde_json::Map::new();
+    let (fs_tbl, glob_tbl, re_tbl) = fs_glob_tables::<T>(&main_abs);
+    out.insert("fs".into(), fs_tbl);
+    out.insert("glob".into(), glob_tbl);
+    out.insert("re_valid".into(), re_tbl);
+    let parsed = catch_unwind(AssertUnwindSafe(|| parse_file::<T>(&main_abs)));
+    match &parsed {
+        Err(_) => {
+            out.insert("parse".into(), json!(["panic"]));
+        }
+        Ok(Ok(rs)) => {
+            out.insert("parse".into(), json!(["ok", rs.iter().map(record_json).collect::<Vec<_>>()]));
+            out.insert("oracle".into(), oracle_table(rs, case));
+        }
+        Ok(Err(e)) => {
+            out.insert("parse".into(), parse_error_json(e));
+        }
+    }
+    if mode == "run" {
+        let shared = make_shared(case);
+        set_current(Some(shared.clone()));
+        let mut runner = Runner::new(MockMaker::<T>::new(shared.clone()));
+        configure(case, &mut runner);
+        let res = catch_unwind(AssertUnwindSafe(|| runner.run_file(&main_abs)));
+        out.insert("final".into(), match res {
+            Err(_) => json!(["panic"]),
+            Ok(Ok(())) => json!(["ok"]),
+            Ok(Err(e)) => test_error_json(&e),
+        });
+        runner.shutdown();
+        drop(runner);
+        set_current(None);
+        out.insert("events".into(), Value::Array(shared.lock().unwrap().events.clone()));
+    }
+    let v = strip_prefix_json(&Value::Object(out), &tree.prefix());
+    drop(tree);
+    v
+}
+
 fn dispatch(family: &str, case: &Value) -> Value {
     match family {
+        "file" => {
+            if case.get("coltype").and_then(|s| s.as_str()) == Some("two") {
+                file_family::<TwoType>(case)
+            } else {
+                file_family::<DefaultColumnType>(case)
+            }
+        }
+        "format" => {
+            if case.get("coltype").and_then(|s| s.as_str()) == Some("two") {
+                format_family::<TwoType>(case)
+            } else {
+                format_family::<DefaultColumnType>(case)
+            }
+        }
         "parse" => {
             if case.get("coltype").and_then(|s| s.as_str()) == Some("two") {
                 parse_family::<TwoType>(case)
